@@ -468,6 +468,36 @@ Proof.
   - eexists. split; [vm_compute; reflexivity|]. repeat split. discriminate.
 Qed.
 
+(* the hypotheses "sizes non-negative" of frame_unpack_zones_mismatch cannot be dropped: the
+   managed-parameter constructors accept negative sizes, Python's negative slice bounds count
+   from the end of the buffer, and with insert-zone size (s - L) and FECF size (F + L) (s, F the
+   true sizes, L the length of the buffer) every slice lands where it should: the frame is
+   reproduced exactly although both sizes are wrong *)
+Definition negative_size_frame : frame :=
+  {| hdr := HPrim {| pbase := {| scid := 16; src_dest := 0; vcid := 55; map_id := 3 |};
+                     frame_len := 14; bypass := 0; prot := 0; ocf_flag := 0; vcf_len := 0;
+                     vcf_count := None |};
+     ftfdf := {| rules := 7; ident := 0; fhp := None; tfdz := [1; 2; 3]; tsize := 4 |};
+     izone := Some [9; 9]; ocf := None; fecf := Some [5; 6] |}.
+
+Theorem frame_unpack_zones_mismatch_negative_refuted :
+  exists f p p', frame_consistent f /\ frame_len_set f /\ props_match f p /\
+    iz_present p' = true /\ iz_present p = true /\ iz_size p' <> iz_size p /\
+    fecf_present p' = true /\ fecf_present p = true /\ fecf_size p' <> fecf_size p /\
+    frame_unpack (frame_layout (hdr_layout (hdr f)) f) (ftype_of_rule (rules (ftfdf f))) p' = Ok (frame_norm f).
+Proof.
+  exists negative_size_frame, (shifted_zone_props 2 2), (shifted_zone_props (-13) 17).
+  split; [|split; [|split]].
+  - unfold frame_consistent, tfdf_consistent, phdr_valid, base_valid, vcf_valid; cbn.
+    repeat split; try discriminate; try reflexivity.
+  - reflexivity.
+  - unfold props_match; cbn. split; [reflexivity|]. split; [intros [H|H]; discriminate H|].
+    repeat split; reflexivity.
+  - split; [reflexivity|]. split; [reflexivity|]. split; [discriminate|].
+    split; [reflexivity|]. split; [reflexivity|]. split; [discriminate|].
+    vm_compute. reflexivity.
+Qed.
+
 Example rule_mismatch_nonvacuous :
   props_match_as shifted_zone_frame FtFixed
     {| p_fixed := true; p_len := 21; iz_present := true; iz_size := 4;
